@@ -867,7 +867,7 @@ def gen_c04_spec(rng: random.Random, A: int, P: int) -> Dict[str, Any]:
         if pat == "idle_burst":
             # a few early messages, an idle gap of several poll periods, then the whole backlog at once
             if i == lead:
-                t += rng.choice([0.35, 0.7, 1.0, 1.4, 2.5, 3.1])
+                t += rng.choice([0.35, 0.7, 1.0, 1.4, 1.6, 2.5, 3.1, 3.1, 4.7])
         elif pat == "burst" and i and i % rng.randint(2, 5) == 0:
             t += rng.choice([0.1, 0.3, 0.5])
         elif pat == "trickle":
